@@ -92,7 +92,7 @@ def env_write(path, data):
     from . import sim
 
     if isinstance(data, str):
-        data = data.encode("utf-8")
+        data = data.encode("utf-8", "replace")  # editors replace what cannot be encoded when saving
     return {"k": "env", "do": "write", "path": path, "data": sim.enc_bytes(data)}
 
 
